@@ -874,6 +874,285 @@ def r5_range_conservation(ctx, F):
                 ctx.violation("range-multiplicity", fn.loc(), "add_range_checks must increment the multiplicity of each value exactly once (present: +1, absent: insert 1): %s" % [(repr(k), repr(m), ins) for k, m, ins in counts])
 
 
+def mod8(t, res):
+    """residue mod 8 of an integer term / field polynomial under residues `res` (variable name -> residue); None if unknown.
+    Addresses are small integers, so field arithmetic on them does not wrap."""
+    if isinstance(t, bool):
+        return int(t)
+    if isinstance(t, int):
+        return t % 8
+    if isinstance(t, Poly):
+        tot = 0
+        for m, c in t.t.items():
+            c = c if c <= P // 2 else c - P
+            term = c % 8
+            for v, e in m:
+                if term == 0:
+                    break
+                if v not in res:
+                    return None
+                term = term * (res[v] ** e) % 8
+            tot = (tot + term) % 8
+        return tot
+    if isinstance(t, Term):
+        if t.op in ("as_int", "as_usize", "as_u64", "as_u32") and len(t.args) == 1:
+            return mod8(t.args[0], res)
+        if t.op in ("+", "-", "*") and len(t.args) == 2:
+            a, b = mod8(t.args[0], res), mod8(t.args[1], res)
+            if a is None or b is None:
+                return None
+            return (a + b) % 8 if t.op == "+" else (a - b) % 8 if t.op == "-" else (a * b) % 8
+        if t.op == "%" and len(t.args) == 2 and t.args[1] == 8:
+            return mod8(t.args[0], res)
+    return None
+
+
+def consistent_paths(res_paths, residues):
+    """paths whose `% 8` guards agree with the residues (a hasher address handed to the stack is the first row of a cycle: 1 mod 8)"""
+    out = []
+    for g, v in res_paths:
+        ok = True
+        for c, val, l in g:
+            r = mod8(c, residues)
+            if r is None:
+                continue
+            if isinstance(val, tuple):
+                ok = ok and (r not in val[1])
+            else:
+                ok = ok and (r == val)
+        if ok:
+            out.append((g, v))
+    return out
+
+
+def r4e_hasher_requests(ctx, F):
+    """HPERM, MPVERIFY, MRUPDATE: the bus request equals the product of the documented values (docs/src/design/stack/crypto_ops.md),
+    with labels m = op_label + 16 (first row of a hash cycle) / + 32 (last row) as in docs/src/design/chiplets/hasher.md"""
+    A = auxmodel.AuxModel(F)
+    T = opmodel.opcode_table(F)
+    C = lambda pat: (lambda c: c["val"] if isinstance(c, dict) and "val" in c else c)(F.const(pat))
+    lab = {"linhash": C(r"hasher::LINEAR_HASH_LABEL$") + 16, "retstate": C(r"hasher::RETURN_STATE_LABEL$") + 32, "mpver": C(r"hasher::MP_VERIFY_LABEL$") + 16,
+           "rethash": C(r"hasher::RETURN_HASH_LABEL$") + 32, "mruold": C(r"hasher::MR_UPDATE_OLD_LABEL$") + 16, "mrunew": C(r"hasher::MR_UPDATE_NEW_LABEL$") + 16}
+    path = "/repo/docs/src/design/stack/crypto_ops.md"
+    txt = open(path).read()
+    secs = {}
+    for m in re.finditer(r"^## ([A-Z0-9]+)\n(.*?)(?=^## |\Z)", txt, re.S | re.M):
+        secs[m.group(1)] = m.group(2)
+    fid = builder_fn(F, "BusColumnBuilder", "get_requests_at")
+    helper0 = "h2"      # user-op helper register 0 is decoder hasher column 2
+
+    def var(name, idx, primed):
+        if name == "alpha":
+            return Poly.var("alpha%d" % idx)
+        if name.startswith("opX"):
+            return Poly.const(lab[name[3:]])
+        if name == "h" and idx == 0:
+            return Poly.var(helper0)
+        if name == "s":
+            return Poly.var("s%d%s" % (idx, "'" if primed else ""))
+        raise LatexError("unknown symbol %s_%s" % (name, idx))
+    for op, sec in (("HPerm", "HPERM"), ("MpVerify", "MPVERIFY"), ("MrUpdate", "MRUPDATE")):
+        ctx.inst(key=op, nontrivial=True)
+        if sec not in secs:
+            ctx.violation("doc-anchor|%s" % sec, path.replace("/repo/", ""), "section %s not found" % sec)
+            continue
+        want = Poly.const(1)
+        n = 0
+        try:
+            for b in decdocs.blocks(secs[sec]):
+                c = decdocs.clean(b)
+                if c.count("=") != 1:
+                    continue
+                lhs, rhs = [x.strip() for x in c.split("=")]
+                if not lhs.startswith("vX"):
+                    continue
+                pr = LatexParser(tokenize(rhs), var, {})
+                want = want * pr.expr()
+                n += 1
+        except LatexError as e:
+            ctx.violation("doc-unparsed|%s" % sec, path.replace("/repo/", ""), str(e)[:200])
+            continue
+        res = [(g, v) for g, v in A.eval(fid, T[op], max_paths=4096) if not isinstance(v, Exception)]
+        good = consistent_paths(res, {helper0: 1, "s4": 0, "s4_any": 0})
+        # s4 (tree depth) is arbitrary: 8*s4 vanishes mod 8 whatever s4 is
+        good = consistent_paths(res, {helper0: 1, "s4": 1}) if not good else [x for x in good if x in consistent_paths(res, {helper0: 1, "s4": 1})]
+        ok = len(good) == 1 and isinstance(good[0][1], Poly) and good[0][1] == want
+        ctx.oblig(ok)
+        ctx.sample({"op": op, "documented_factors": n, "paths": len(res), "paths_consistent_with_cycle_alignment": len(good)})
+        if not ok:
+            got = good[0][1] if good else None
+            diff = (got - want) if isinstance(got, Poly) else None
+            ctx.violation("hasher-request|%s" % op, F.fns[fid].loc(), "%s: the chiplets-bus request is not the product of the %d documented values (crypto_ops.md %s) for a hasher address aligned to a hash cycle; %s"
+                          % (op, n, sec, ("difference: %s" % str(diff)[:300]) if diff is not None else "%d consistent paths" % len(good)))
+
+
+def r4g_control_requests(ctx, F):
+    """control-block bus requests vs docs/src/design/decoder/constraints.md ("Block hash computation constraints"):
+    JOIN/SPLIT/LOOP/DYN/CALL: h_init + alpha5*d; SPAN: h_init; END: h_res; SYSCALL: (h_init + alpha5*d) * k_proc"""
+    A = auxmodel.AuxModel(F)
+    T = opmodel.opcode_table(F)
+    C = lambda pat: (lambda c: c["val"] if isinstance(c, dict) and "val" in c else c)(F.const(pat))
+    m_bp, m_hout = C(r"hasher::LINEAR_HASH_LABEL$") + 16, C(r"hasher::RETURN_HASH_LABEL$") + 32
+    krom = C(r"chiplets::kernel_rom::KERNEL_PROC_LABEL$")
+    krom = krom * R_INV % P if isinstance(krom, int) and krom > 2 ** 32 else krom
+    lines = open(decdocs.DOC).read().split("\n")
+    st = [i for i, l in enumerate(lines) if l.startswith("## Block hash computation constraints")]
+    en = [i for i, l in enumerate(lines) if l.startswith("## Block stack table constraints")]
+    if len(st) != 1 or len(en) != 1:
+        ctx.violation("doc-anchor|block-hash-computation", "docs/src/design/decoder/constraints.md", "section not found")
+        return
+    txt = "\n".join(lines[st[0]:en[0]])
+    defs = {}
+    for b in decdocs.blocks(txt):
+        c = decdocs.clean(b)
+        if c.count("=") == 1:
+            lhs, rhs = [x.strip() for x in c.split("=")]
+            defs[lhs] = rhs
+    ctx.floor("control-request-doc-formulas", len([k for k in defs if k.startswith(("hX", "uX", "kX"))]), 6)
+    fid = builder_fn(F, "BusColumnBuilder", "get_requests_at")
+
+    def mk(opcode):
+        def var(name, idx, primed):
+            if name == "alpha":
+                return Poly.var("alpha%d" % idx)
+            if name == "mXbp":
+                return Poly.const(m_bp)
+            if name == "mXhout":
+                return Poly.const(m_hout)
+            if name == "opXkrom":
+                return Poly.const(krom)
+            if name == "d" and idx is None:
+                return Poly.const(opcode)
+            if name == "a" and idx is None:
+                return Poly.var("a'" if primed else "a")
+            if name == "h" and idx is not None:
+                return Poly.var("h%d" % idx)
+            if name.startswith("fX"):
+                return Poly.const(1)
+            if name in defs and idx is None:
+                return LatexParser(tokenize(defs[name]), var, {}).expr()
+            raise LatexError("unknown symbol %s_%s" % (name, idx))
+        return var
+    table = {"Join": "uXctrli", "Split": "uXctrli", "Loop": "uXctrli", "Dyn": "uXctrli", "Call": "uXctrli", "Span": "uXspan", "End": "uXend", "SysCall": "uXsyscall"}
+    for op, key in table.items():
+        ctx.inst(key=op, nontrivial=True)
+        try:
+            want = LatexParser(tokenize(defs[key]), mk(T[op]), {}).expr()
+            if op == "SysCall":
+                # DOC_DISCREPANCY: constraints.md writes k_proc with alpha6, alpha7, alpha8..; the kernel ROM chiplet's response (kernel_rom.md) is
+                # alpha0 + alpha1*op_krom + sum alpha_{i+2}*r_i and a request must equal the response it cancels
+                hinit = LatexParser(tokenize(defs["hXinit"]), mk(T[op]), {}).expr() + Poly.var("alpha5") * Poly.const(T[op])
+                kp = Poly.var("alpha0") + Poly.var("alpha1") * Poly.const(krom)
+                for i in range(4):
+                    kp = kp + Poly.var("alpha%d" % (i + 2)) * Poly.var("h%d" % i)
+                want = hinit * kp
+        except (LatexError, KeyError) as e:
+            ctx.violation("doc-unparsed|control-request|%s" % op, "docs/src/design/decoder/constraints.md", str(e)[:200])
+            continue
+        res = [(g, v) for g, v in A.eval(fid, T[op], max_paths=512) if not isinstance(v, Exception)]
+        # block addresses are hasher addresses of first rows of a cycle (1 mod 8); END reads the row a + 7
+        good = consistent_paths(res, {"a'": 1, "a": 1})
+        ok = len(good) == 1 and isinstance(good[0][1], Poly) and good[0][1] == want
+        ctx.oblig(ok)
+        if not ok:
+            got = good[0][1] if good else None
+            ctx.violation("control-request|%s" % op, F.fns[fid].loc(), "%s: the chiplets-bus request %s differs from the documented value %s" % (op, str(got)[:200], str(want)[:200]))
+
+
+def r4f_hasher_responses(ctx, F):
+    """hasher chiplet rows: the bus response has the documented form (docs/src/design/chiplets/hasher.md, "Multiset check
+    constraints") for each transition flag, and is 1 on every other hasher row"""
+    A = auxmodel.AuxModel(F)
+    C = lambda pat: (lambda c: c["val"] if isinstance(c, dict) and "val" in c else c)(F.const(pat))
+    L = {n: C(r"hasher::%s$" % n) for n in ("LINEAR_HASH_LABEL", "RETURN_STATE_LABEL", "MP_VERIFY_LABEL", "RETURN_HASH_LABEL", "MR_UPDATE_OLD_LABEL", "MR_UPDATE_NEW_LABEL")}
+    txt = open("/repo/docs/src/design/chiplets/hasher.md").read()
+    m = re.search(r"### Multiset check constraints(.*?)#### Sibling table constraints", txt, re.S)
+    if not m:
+        ctx.violation("doc-anchor|hasher-multiset", "docs/src/design/chiplets/hasher.md", "section not found")
+        return
+    defs = {}
+    for b in decdocs.blocks(m.group(1)):
+        c = decdocs.clean(b.replace("v'_b", "vXbn").replace("v'_c", "vXcn"))
+        if c.count("=") == 1:
+            lhs, rhs = [x.strip() for x in c.split("=")]
+            defs[lhs] = rhs.rstrip("\\ ").strip()
+    need = ["v_h", "v_a", "v_b", "v_c", "v_d", "vXall", "vXleaf", "vXabp", "vXres"]
+    miss = [k for k in need if k not in defs]
+    if miss:
+        ctx.violation("doc-unparsed|hasher-multiset", "docs/src/design/chiplets/hasher.md", "formulas %s not found (have %s)" % (miss, sorted(defs)))
+        return
+    ch = A.CHP
+    fid = builder_fn(F, "BusColumnBuilder", "get_responses_at")
+    cases = [("f_bp", 0, (1, 0, 0), "vXall", L["LINEAR_HASH_LABEL"] + 16), ("f_mp", 0, (1, 0, 1), "vXleaf", L["MP_VERIFY_LABEL"] + 16),
+             ("f_mv", 0, (1, 1, 0), "vXleaf", L["MR_UPDATE_OLD_LABEL"] + 16), ("f_mu", 0, (1, 1, 1), "vXleaf", L["MR_UPDATE_NEW_LABEL"] + 16),
+             ("f_hout", 7, (0, 0, 0), "vXres", L["RETURN_HASH_LABEL"] + 32), ("f_sout", 7, (0, 0, 1), "vXall", L["RETURN_STATE_LABEL"] + 32),
+             ("f_abp", 7, (1, 0, 0), "vXabp", L["LINEAR_HASH_LABEL"] + 32)]
+    quiet = [("row 3 of a cycle", 3, (0, 0, 0)), ("row 0, selectors (0,0,0)", 0, (0, 0, 0)), ("row 7, selectors (1,0,1)", 7, (1, 0, 1)), ("row 7, selectors (1,1,0)", 7, (1, 1, 0))]
+    for name, r8, sel, key, label in cases:
+        for bit in ((0, 1) if key == "vXleaf" else (None,)):
+            row = 8 + r8
+            off = row - auxmodel.BASE
+            fixed = {(ch, off): 0, (ch + 1, off): sel[0], (ch + 2, off): sel[1], (ch + 3, off): sel[2]}
+            if bit is not None:
+                fixed[(ch + 16, off)] = 6 + bit
+            suf = lambda o: auxmodel.SUF[o] if o in auxmodel.SUF else "@%+d" % o
+            cellv = lambda c, o: Poly.const(fixed[(c, o)]) if (c, o) in fixed else Poly.var(A.names[c] + suf(o))
+
+            def var(nm, idx, primed, off=off, label=label, bit=bit):
+                if nm == "alpha":
+                    return Poly.var("alpha%d" % idx)
+                if nm == "m" and idx is None:
+                    return Poly.const(label)
+                if nm == "clk":
+                    return Poly.const(row)         # the hasher row address: docs' clk + 1 = row index + 1
+                if nm == "i" and idx is None:
+                    return cellv(ch + 16, off)
+                if nm == "h" and idx is not None:
+                    return cellv(ch + 4 + idx, off + (1 if primed else 0))
+                if nm == "b" and idx is None:
+                    return Poly.const(bit)
+                if nm in ("vXbn", "vXcn"):
+                    base = {"vXbn": "v_b", "vXcn": "v_c"}[nm]
+                    return LatexParser(tokenize(decdocs.expand_sums(defs[base])), lambda n2, i2, p2: var(n2, i2, True) if n2 == "h" else var(n2, i2, p2), {}).expr()
+                if nm == "v" and idx is None:
+                    raise LatexError("bare v")
+                k2 = nm if nm in defs else ("v_%s" % idx if False else None)
+                if nm in defs:
+                    return LatexParser(tokenize(defs[nm]), var, {}).expr()
+                raise LatexError("unknown symbol %s_%s" % (nm, idx))
+            # v_h, v_a ... are written v_h in the docs: after clean() they appear as names `v` with index letters; map through defs keys
+            def var2(nm, idx, primed):
+                return var(nm, idx, primed)
+            try:
+                # substitute sub-definitions textually: v_h -> (..), etc.
+                def expand(t, depth=0):
+                    for k in ("v_h", "v_a", "v_b", "v_c", "v_d"):
+                        t = re.sub(r"(?<![A-Za-z])" + re.escape(k) + r"(?![A-Za-z0-9])", lambda m_, k=k: "(" + defs[k] + ")", t)
+                    return t
+                want = LatexParser(tokenize(expand(defs[key])), var2, {}).expr()
+            except LatexError as e:
+                ctx.violation("doc-unparsed|hasher-response|%s" % name, "docs/src/design/chiplets/hasher.md", str(e)[:200])
+                continue
+            k_ = "hasher-response|%s%s" % (name, "" if bit is None else "|bit=%d" % bit)
+            ctx.inst(key=k_, nontrivial=True)
+            res = [(g, v) for g, v in A.eval(fid, None, extra_fixed=fixed, row=row) if not isinstance(v, Exception)]
+            ok = len(res) == 1 and isinstance(res[0][1], Poly) and res[0][1] == want
+            ctx.oblig(ok)
+            if not ok:
+                ctx.violation(k_, F.fns[fid].loc(), "hasher row with flag %s%s: the bus response is %s; docs/src/design/chiplets/hasher.md gives %s"
+                              % (name, "" if bit is None else " (index bit %d)" % bit, "; ".join(str(v)[:200] for g, v in res[:2]), str(want)[:200]))
+    for name, r8, sel in quiet:
+        row = 8 + r8
+        off = row - auxmodel.BASE
+        fixed = {(ch, off): 0, (ch + 1, off): sel[0], (ch + 2, off): sel[1], (ch + 3, off): sel[2]}
+        ctx.inst(key="hasher-response|quiet|%s" % name, nontrivial=False)
+        res = [(g, v) for g, v in A.eval(fid, None, extra_fixed=fixed, row=row) if not isinstance(v, Exception)]
+        ok = len(res) == 1 and is_one(res[0][1])
+        ctx.oblig(ok)
+        if not ok:
+            ctx.violation("hasher-response|spurious|%s" % name, F.fns[fid].loc(), "hasher %s: the bus response must be 1, got %s" % (name, [str(v)[:100] for g, v in res][:2]))
+
+
 def r4d_kernel_rom(ctx, F):
     """kernel ROM rows: the chiplets bus response and the kernel procedure table row (chiplets virtual table) have the forms of
     docs/src/design/chiplets/kernel_rom.md, each in its own column"""
@@ -978,5 +1257,8 @@ def run(ctx, F):
     ctx.run_rule("C12-R5", "RangeChecker::add_range_checks counts every value once and records all values of a row, also when the row already has lookups", r5_range_conservation, F)
     ctx.run_rule("C12-R4a", "virtual-table rows (block stack, block hash, op group, stack overflow) equal the documented rows for every operation; CALL/SYSCALL rows agree between insertion and removal", r4a_decoder_tables, F)
     ctx.run_rule("C12-R4d", "kernel ROM rows: bus response and kernel procedure table row have the documented forms, each in its own column", r4d_kernel_rom, F)
+    ctx.run_rule("C12-R4e", "HPERM / MPVERIFY / MRUPDATE bus requests equal the products of the documented input/output values with cycle-aligned labels", r4e_hasher_requests, F)
+    ctx.run_rule("C12-R4g", "control-block bus requests (JOIN, SPLIT, LOOP, DYN, CALL, SYSCALL, SPAN, END) equal the documented values for cycle-aligned block addresses", r4g_control_requests, F)
+    ctx.run_rule("C12-R4f", "hasher chiplet rows: bus responses have the documented form for each of the 7 transition flags and are 1 elsewhere", r4f_hasher_responses, F)
     ctx.run_rule("C12-R4b", "every block-stack push/pop has an insertion/removal; every executor that runs child blocks inserts them into the block hash table", r4b_who_inserts, F)
     ctx.run_rule("C12-R4c", "MainTrace::is_left_shift / is_right_shift agree with each operation's stack effect", r4c_shift_predicates, F)
